@@ -1010,6 +1010,18 @@ func c09GridCases() []*c09Case {
 			add([]string{"-top", "-" + o + "=" + v})
 		}
 	}
+	// name adversaries: each profile with four of the output commands (rotating)
+	nameCmds := [][]string{{"-top"}, {"-tree"}, {"-traces"}, {"-tags"}, {"-dot"}, {"-callgrind"}, {"-weblist=."}, {"-list=."}, {"-peek=."}, {"-top", "-lines"}, {"-raw"}, {"-topproto"}}
+	for i, nc := range c09NameCases() {
+		npb := c09ProfileBytes(nc.p)
+		if npb == nil {
+			continue
+		}
+		for k := 0; k < 4; k++ {
+			a := append(append([]string{}, nameCmds[(i+3*k)%len(nameCmds)]...), "-symbolize=none", "-output=grid.out")
+			out = append(out, &c09Case{Kind: "cli", Profile: hex.EncodeToString(npb), Args: hexAll(a), Text: fmt.Sprintf("grid: pprof %q <grid profile with %s>", a, nc.what)})
+		}
+	}
 	for _, c := range cmds {
 		for _, o := range opts {
 			for ti, t := range trims {
@@ -1017,6 +1029,79 @@ func c09GridCases() []*c09Case {
 				if ti == 0 && len(o) > 0 && o[0] != "-call_tree" { // together with call_tree
 					add(append(append([]string{c, "-call_tree"}, o...), t...))
 				}
+			}
+		}
+	}
+	return out
+}
+
+// ---------------------------------------------------------------------------------------------
+// name adversaries: every separator the code splits names on, as prefix / suffix / whole name
+// ---------------------------------------------------------------------------------------------
+
+var c09NameTokens = []string{":", "::", ":::", ".", "..", "/", "//", "(", ")", "()", "<", ">", "<>", "[", "]", "*", "&", "$", " ", "\x00", "\\", "", "x",
+	"-", "~", ",", ";", "|", "=", "%", "@", "#", "\"", "'", "\xff", "\n", "\t", "::(", ")::", "<:", ".(", "(*", strings.Repeat("n", 3000), strings.Repeat("a::", 200), strings.Repeat("(", 100)}
+
+type c09NameCase struct {
+	p         *profile.Profile
+	what      string
+	preflight bool // the string reaches code that runs while the profile is being fetched (mapping file)
+}
+
+// c09NameCases: the grid profile with one group of name-like strings replaced by a token applied as
+// prefix, suffix or whole name: (a) a function's name and system name, (b) its file name and the
+// mapping's file, (c) label keys and values, (d) a sample type, its unit and a comment.
+func c09NameCases() []c09NameCase {
+	var out []c09NameCase
+	apply := func(pos int, tok, base string) string {
+		switch pos {
+		case 0:
+			return tok + base
+		case 1:
+			return base + tok
+		}
+		return tok
+	}
+	posName := []string{"prefix", "suffix", "whole"}
+	for _, tok := range c09NameTokens {
+		for pos := 0; pos < 3; pos++ {
+			for grp := 0; grp < 4; grp++ {
+				p := c09GridProfile()
+				what := ""
+				switch grp {
+				case 0:
+					for _, f := range p.Function {
+						if f.Name == "c" || f.Name == "inl" {
+							f.Name = apply(pos, tok, "std::basic_string")
+							f.SystemName = f.Name
+						}
+					}
+					what = "function name"
+				case 1:
+					for _, f := range p.Function {
+						if f.Name == "c" || f.Name == "main" {
+							f.Filename = apply(pos, tok, "src/pkg/c.go")
+						}
+					}
+					p.Mapping[0].File = apply(pos, tok, "/bin/gridprog")
+					what = "file names"
+				case 2:
+					for _, s := range p.Sample {
+						if s.Label != nil {
+							s.Label = map[string][]string{apply(pos, tok, "k"): {apply(pos, tok, "v"), "w"}}
+							s.NumLabel = map[string][]int64{apply(pos, tok, "bytes"): s.NumLabel["bytes"]}
+							s.NumUnit = map[string][]string{apply(pos, tok, "bytes"): {apply(pos, tok, "bytes")}}
+						}
+					}
+					what = "label keys/values"
+				default:
+					p.SampleType[1].Type = apply(pos, tok, "cpu")
+					p.SampleType[1].Unit = apply(pos, tok, "nanoseconds")
+					p.Comments = []string{apply(pos, tok, "comment")}
+					p.DefaultSampleType = p.SampleType[1].Type
+					what = "sample type/unit/comment"
+				}
+				out = append(out, c09NameCase{p, fmt.Sprintf("%s = %s %.24q", what, posName[pos], tok), grp == 1})
 			}
 		}
 	}
